@@ -1,2 +1,3 @@
 -- Property files of work group I1 (import UF.Props.Cxx lines go here).
 import UF.Props.C11Compose
+import UF.Props.C01Compose
